@@ -90,9 +90,6 @@ def c17Update (c : FAgents.MomP) (m pm pl : F) (prevB nextB : Obs) : List String
   let nMarket (tr : Nat) := (newOs.filter fun o => o.trader == tr && isMarketOrder o).length
   let p0 (p : F) := !F64.lt (.fin 0) p
   let p1 (p : F) := FAgents.ge p (.fin 1)
-  -- the signal is updated from successive MID-prices: what the book reports as its mid-price (the value the
-  -- agent reads) must be the midpoint of its touch prices, crossed or not
-  Audit.chk "observed_mid_is_not_the_touch_midpoint" (prevB.mid2 == some (prevB.bidAsk.1 + prevB.bidAsk.2)) ++
   Audit.chk "trades_with_zero_momentum" (pos || neg || newOs.isEmpty) ++
   Audit.chk "sell_with_positive_momentum" (!pos || newOs.all fun o => o.side == .bid) ++
   Audit.chk "buy_with_negative_momentum" (!neg || newOs.all fun o => o.side == .ask) ++
@@ -179,7 +176,12 @@ def handleAgentOp (hid : String) (opIdx : Nat) (ticks : List Nat) (nLevels : Nat
             | some p, some (xb, _) => F64.ofBits xb != F64.mul c.scale (FAgents.nextM c st.mom.m p mid)
             | some _, none => true
             | none, _ => false
-          let aud17 := match prevB[a]?, ln.books[a]? with
+          -- the signal is updated from successive MID-prices: what the book reports as its mid-price (the value the
+          -- agent reads) must be the midpoint of its touch prices, crossed or not (needs no model)
+          let audMid := match prevB[a]? with
+            | some pb => Audit.chk "observed_mid_is_not_the_touch_midpoint" (pb.mid2 == some (pb.bidAsk.1 + pb.bidAsk.2))
+            | none => []
+          let aud17 := audMid ++ match prevB[a]?, ln.books[a]? with
             | some pb, some nb => if kDead || thArgBad then [] else c17Update c m pm pl pb nb
             | _, _ => []
           let audLines := (if aud16.isEmpty then [] else [s!"A C16 {hid} {opIdx} {",".intercalate aud16.eraseDups} {tail}"]) ++
